@@ -5,6 +5,7 @@ import (
 	"encoding/json"
 	"fmt"
 	"io"
+	"math/rand"
 	"net/textproto"
 	"os"
 	"os/exec"
@@ -28,18 +29,37 @@ import (
 	"verif/core"
 )
 
-// occ is one occurrence of a message in the generated sources.
+// member is a further message of a template that holds several.
+type member struct {
+	c    *POCase
+	desc string
+}
+
+// occ is one occurrence of a message (or, where = multi / multi-loop, of
+// several different messages in ONE template body) in the generated sources.
 type occ struct {
 	c     *POCase
-	where string // top | loop | call
+	where string // top | loop | call | multi | multi-loop
 	tmpl  string // fully qualified template that renders it
 	desc  string // description of the {msg} it reaches
 	file  int    // index of the source file
+	more  []member
 }
 
-func (o *occ) wrap(s string) string {
+func (o *occ) members() []member { return append([]member{{o.c, o.desc}}, o.more...) }
+
+func (o *occ) feat() string {
+	if len(o.more) > 0 {
+		return "several-messages-in-one-template"
+	}
+	return o.c.Feat
+}
+
+// wrap gives the template's output from the renderings of its messages.
+func (o *occ) wrap(ss []string) string {
+	s := strings.Join(ss, "|")
 	switch o.where {
-	case "loop":
+	case "loop", "multi-loop":
 		return "1:" + s + ";2:" + s + ";"
 	case "call":
 		return "[" + s + "]"
@@ -55,8 +75,10 @@ type poEntry struct {
 }
 
 type catalogue struct {
-	name     string // e.g. "ru-rev"
-	loc      string
+	name     string // e.g. "ru-rev", "fr~en-idt"
+	loc      string // locale the catalogue is loaded for
+	rule     string // whose plural rule the Plural-Forms header carries (SoyPO rule id)
+	alias    bool   // loc != rule: only plural messages are rendered, in Go only
 	strategy string // none | idt | rev | partial
 	text     string // PO text
 	bundle   soymsg.Bundle
@@ -277,6 +299,64 @@ func runGroup(ctx0 *core.Ctx, ctx *reporter, cases []*POCase, locales []string, 
 			occs = append(occs, &occ{c: c, where: "call", tmpl: fmt.Sprintf("%s.c%d", ns, i), desc: dTop, file: fi})
 		}
 	}
+	// several DIFFERENT messages in one template body (and in one loop body):
+	// neighbours of the family (they differ in one part, so they mostly share
+	// placeholder names for different expressions) and seeded random partners
+	rnd := rand.New(rand.NewSource(ctx0.Seed))
+	sameNs := func(a, b *POCase) bool { return len(a.Exp) == len(b.Exp) && a.isPlural() == b.isPlural() }
+	for i, c := range valid {
+		var group []int
+		switch (i + seed) % 4 {
+		case 0:
+			group = []int{i, i + 1, i + 2}
+		case 2:
+			group = []int{i, rnd.Intn(len(valid))}
+		default:
+			continue
+		}
+		ok := true
+		for _, k := range group {
+			if k >= len(valid) || !sameNs(c, valid[k]) {
+				ok = false
+			}
+		}
+		if !ok || group[0] == group[len(group)-1] {
+			continue
+		}
+		fi := i / perFile
+		ns := fmt.Sprintf("c11.f%03d", fi)
+		f := &files[fi]
+		varSet := map[string]bool{}
+		var bodies []string
+		o := &occ{c: c, where: "multi", tmpl: fmt.Sprintf("%s.x%d", ns, i), file: fi}
+		if (i+seed)%8 >= 4 {
+			o.where = "multi-loop"
+		}
+		for gi, k := range group {
+			m := valid[k]
+			d := fmt.Sprintf("M|%s|multi%d.%d", m.ID, i, gi)
+			for _, v := range c10.BodyVars(m.Parts) {
+				varSet[v] = true
+			}
+			bodies = append(bodies, c10.MsgTag(m.Meaning, d, c10.UnparseBody(m.Parts)))
+			if gi == 0 {
+				o.desc = d
+			} else {
+				o.more = append(o.more, member{m, d})
+			}
+		}
+		var vars []string
+		for v := range varSet {
+			vars = append(vars, v)
+		}
+		sort.Strings(vars)
+		body := strings.Join(bodies, "|")
+		if o.where == "multi-loop" {
+			body = "{foreach $k in [1, 2]}{$k}:" + body + ";{/foreach}"
+		}
+		f.Text += c10.Template(fmt.Sprintf("x%d", i), vars, "", body)
+		occs = append(occs, o)
+	}
 	for _, f := range files {
 		if err := os.WriteFile(filepath.Join(work, "src", f.Name), []byte(f.Text), 0o644); err != nil {
 			ctx.ToolError("%v", err)
@@ -319,7 +399,9 @@ func runGroup(ctx0 *core.Ctx, ctx *reporter, cases []*POCase, locales []string, 
 	entries := map[string]*poEntry{}
 	nDescs := map[string]bool{}
 	for _, o := range occs {
-		nDescs[o.desc] = true
+		for _, m := range o.members() {
+			nDescs[m.desc] = true
+		}
 	}
 	for _, m := range pof.Messages {
 		e := &poEntry{msg: m, refs: m.References}
@@ -343,12 +425,14 @@ func runGroup(ctx0 *core.Ctx, ctx *reporter, cases []*POCase, locales []string, 
 	extractOK := map[string]bool{} // desc -> entry as the spec says
 	seenDesc := map[string]bool{}
 	for _, o := range occs {
-		if seenDesc[o.desc] {
-			continue
+		for _, m := range o.members() {
+			if seenDesc[m.desc] {
+				continue
+			}
+			seenDesc[m.desc] = true
+			extractOK[m.desc] = checkEntry(ctx, m.c, m.desc, entries[m.desc], nodeByDesc[m.desc], files[o.file])
+			ctx.AddEvals(1)
 		}
-		seenDesc[o.desc] = true
-		extractOK[o.desc] = checkEntry(ctx, o, entries[o.desc], nodeByDesc[o.desc], files[o.file])
-		ctx.AddEvals(1)
 	}
 
 	// ---- catalogues --------------------------------------------------------------
@@ -360,44 +444,67 @@ func runGroup(ctx0 *core.Ctx, ctx *reporter, cases []*POCase, locales []string, 
 		break
 	}
 	cats := []*catalogue{{name: "none", strategy: "none"}}
+	type catSpec struct {
+		loc, rule, st string
+	}
+	var specs []catSpec
 	for _, loc := range locales {
 		for _, st := range []string{"idt", "rev", "partial"} {
-			cat := &catalogue{name: loc + "-" + st, loc: loc, strategy: st, np: nplurals(forms[loc])}
-			pf := po.File{Header: textproto.MIMEHeader{}}
-			pf.Header.Set("Plural-Forms", forms[loc])
-			for _, m := range pof.Messages {
-				var id uint64
-				for _, r := range m.References {
-					if strings.HasPrefix(r, "id=") {
-						id, _ = strconv.ParseUint(r[3:], 10, 64)
-					}
-				}
-				s := st
-				if st == "partial" {
-					if dropped(id) {
-						continue
-					}
-					s = "rev"
-				}
-				m.Str = translate(s, m.Id, m.IdPlural, loc, cat.np)
-				pf.Messages = append(pf.Messages, m)
-			}
-			var buf bytes.Buffer
-			pf.WriteTo(&buf)
-			cat.text = buf.String()
-			prov, err := pomsg.Load(memOpener{loc: cat.text}, []string{loc})
-			if err != nil {
-				ctx.Violation(core.Sig{Family: "M2-load", Feature: "catalogue-rejected," + st}, "pomsg.Load rejects the translated catalogue: "+err.Error(),
-					map[string]interface{}{"po": trunc(cat.text, 4000)})
-				continue
-			}
-			cat.bundle = prov.Bundle(loc)
-			if cat.bundle == nil {
-				ctx.Violation(core.Sig{Family: "M2-load", Feature: "no-bundle-for-locale"}, "no bundle for locale "+loc, nil)
-				continue
-			}
-			cats = append(cats, cat)
+			specs = append(specs, catSpec{loc, loc, st})
 		}
+	}
+	// the same Plural-Forms header in a catalogue for ANOTHER locale (one that
+	// has a different built-in rule): the header must win
+	for _, c := range valid {
+		for _, t := range c.Tr {
+			for _, nm := range t.Names {
+				if nm != t.Loc {
+					specs = append(specs, catSpec{nm, t.Loc, "idt"})
+				}
+			}
+		}
+		break
+	}
+	for _, cs := range specs {
+		loc, st := cs.loc, cs.st
+		cat := &catalogue{name: loc + "-" + st, loc: loc, rule: cs.rule, strategy: st, np: nplurals(forms[cs.rule]), alias: loc != cs.rule}
+		if cat.alias {
+			cat.name = loc + "~" + cs.rule + "-" + st
+		}
+		pf := po.File{Header: textproto.MIMEHeader{}}
+		pf.Header.Set("Plural-Forms", forms[cs.rule])
+		for _, m := range pof.Messages {
+			var id uint64
+			for _, r := range m.References {
+				if strings.HasPrefix(r, "id=") {
+					id, _ = strconv.ParseUint(r[3:], 10, 64)
+				}
+			}
+			s := st
+			if st == "partial" {
+				if dropped(id) {
+					continue
+				}
+				s = "rev"
+			}
+			m.Str = translate(s, m.Id, m.IdPlural, cs.rule, cat.np)
+			pf.Messages = append(pf.Messages, m)
+		}
+		var buf bytes.Buffer
+		pf.WriteTo(&buf)
+		cat.text = buf.String()
+		prov, err := pomsg.Load(memOpener{loc: cat.text}, []string{loc})
+		if err != nil {
+			ctx.Violation(core.Sig{Family: "M2-load", Feature: "catalogue-rejected," + st}, "pomsg.Load rejects the translated catalogue: "+err.Error(),
+				map[string]interface{}{"po": trunc(cat.text, 4000)})
+			continue
+		}
+		cat.bundle = prov.Bundle(loc)
+		if cat.bundle == nil {
+			ctx.Violation(core.Sig{Family: "M2-load", Feature: "no-bundle-for-locale"}, "no bundle for locale "+loc, nil)
+			continue
+		}
+		cats = append(cats, cat)
 	}
 	// the translator is cross-checked against the spec's POTranslate
 	for _, o := range occs {
@@ -437,7 +544,7 @@ func runGroup(ctx0 *core.Ctx, ctx *reporter, cases []*POCase, locales []string, 
 				for _, ex := range j.o.c.Exp {
 					out, err := renderGo(tofu, j.o.tmpl, j.cat, ex.N)
 					n++
-					judgeRender(ctx, "go", j.o, j.cat, ex, entries[j.o.desc], out, err, files[j.o.file])
+					judgeRender(ctx, "go", j.o, j.cat, ex.N, entries, out, err, files[j.o.file])
 				}
 				mu.Lock()
 				renders += n
@@ -447,6 +554,9 @@ func runGroup(ctx0 *core.Ctx, ctx *reporter, cases []*POCase, locales []string, 
 	}
 	for _, cat := range cats {
 		for _, o := range occs {
+			if cat.alias && !o.c.isPlural() {
+				continue
+			}
 			jobs <- job{o, cat}
 		}
 	}
@@ -535,15 +645,14 @@ func checkInvalid(ctx *reporter, xg, work string, invalid []*POCase) {
 }
 
 // checkEntry compares one extracted PO entry with the spec.
-func checkEntry(ctx *reporter, o *occ, e *poEntry, node *ast.MsgNode, f core.File) bool {
-	c := o.c
-	rp := map[string]interface{}{"case": c, "desc": o.desc, "file": f}
+func checkEntry(ctx *reporter, c *POCase, desc string, e *poEntry, node *ast.MsgNode, f core.File) bool {
+	rp := map[string]interface{}{"case": c, "desc": desc, "file": f}
 	viol := func(what, msg string) bool {
 		ctx.Violation(core.Sig{Family: "M2-extract", Feature: what + "," + c.Feat}, c10.UnparseBody(c.Parts)+": "+msg, rp)
 		return false
 	}
 	if e == nil {
-		return viol("entry-missing", "no PO entry with comment "+o.desc)
+		return viol("entry-missing", "no PO entry with comment "+desc)
 	}
 	rp["entry"] = map[string]interface{}{"msgctxt": e.msg.Ctxt, "msgid": e.msg.Id, "msgid_plural": e.msg.IdPlural, "references": e.refs}
 	ok := true
@@ -571,7 +680,7 @@ func checkEntry(ctx *reporter, o *occ, e *poEntry, node *ast.MsgNode, f core.Fil
 		ok = viol("references-malformed", fmt.Sprintf("references %q", e.refs))
 	}
 	if node == nil {
-		ctx.ToolError("message %s not found in the compiled bundle", o.desc)
+		ctx.ToolError("message %s not found in the compiled bundle", desc)
 		return false
 	}
 	if e.id != node.ID {
@@ -595,8 +704,17 @@ func renderGo(tofu *soyhtml.Tofu, tmpl string, cat *catalogue, n int) (out strin
 	return buf.String(), err
 }
 
-// expected gives the spec's outcome for an occurrence under a catalogue.
-func expected(o *occ, cat *catalogue, ex Exp, e *poEntry) (Outcome, string) {
+// expected gives the spec's outcome for one message under a catalogue.
+func expected(c *POCase, cat *catalogue, n int, e *poEntry) (Outcome, string) {
+	var ex *Exp
+	for i := range c.Exp {
+		if c.Exp[i].N == n {
+			ex = &c.Exp[i]
+		}
+	}
+	if ex == nil {
+		return Outcome{T: "unspec"}, cat.strategy
+	}
 	st := cat.strategy
 	if st == "partial" {
 		if e == nil || dropped(e.id) {
@@ -608,8 +726,11 @@ func expected(o *occ, cat *catalogue, ex Exp, e *poEntry) (Outcome, string) {
 		return ex.Src, "none"
 	}
 	for _, l := range ex.Loc {
-		if l.Loc == cat.loc {
+		if l.Loc == cat.rule {
 			if st == "idt" {
+				if cat.alias {
+					return l.Idt, "identity-header-differs-from-builtin-rule"
+				}
 				return l.Idt, "identity"
 			}
 			if cat.strategy == "partial" {
@@ -621,12 +742,41 @@ func expected(o *occ, cat *catalogue, ex Exp, e *poEntry) (Outcome, string) {
 	return Outcome{T: "unspec"}, st
 }
 
-func judgeRender(ctx *reporter, backend string, o *occ, cat *catalogue, ex Exp, e *poEntry, out string, rerr error, f core.File) {
-	exp, stName := expected(o, cat, ex, e)
-	kind := ""
-	switch exp.T {
-	case "out":
-		want := o.wrap(exp.S)
+func judgeRender(ctx *reporter, backend string, o *occ, cat *catalogue, n int, entries map[string]*poEntry, out string, rerr error, f core.File) {
+	var parts []string
+	allOut, anyErr, translated := true, false, false
+	stName := ""
+	var e0 *poEntry
+	for i, m := range o.members() {
+		e := entries[m.desc]
+		if i == 0 {
+			e0 = e
+		}
+		exp, st := expected(m.c, cat, n, e)
+		if i == 0 {
+			stName = st
+		}
+		if st != "none" && st != "partial-absent" {
+			translated = true
+		}
+		switch exp.T {
+		case "out":
+			parts = append(parts, exp.S)
+		case "err":
+			anyErr, allOut = true, false
+		default:
+			allOut = false
+		}
+	}
+	var bodies []string
+	for _, m := range o.members() {
+		bodies = append(bodies, c10.UnparseBody(m.c.Parts))
+	}
+	src := strings.Join(bodies, " | ")
+	switch {
+	case allOut:
+		want := o.wrap(parts)
+		kind := ""
 		if rerr != nil {
 			kind = "unexpected-error"
 		} else if out != want {
@@ -635,27 +785,30 @@ func judgeRender(ctx *reporter, backend string, o *occ, cat *catalogue, ex Exp, 
 		if kind == "" {
 			return
 		}
-		tr := "translated"
-		if stName == "none" || stName == "partial-absent" {
-			tr = "source"
+		tr := "source"
+		if translated {
+			tr = "translated"
 		}
-		feat := fmt.Sprintf("%s,%s,%s", tr, kind, o.c.Feat)
-		if o.c.isPlural() && cat.np > 0 && tr == "translated" {
+		feat := fmt.Sprintf("%s,%s,%s", tr, kind, o.feat())
+		if o.c.isPlural() && cat.np > 0 && translated {
 			feat += fmt.Sprintf(",plural-forms=%d", cat.np)
+			if cat.alias {
+				feat += ",header-differs-from-builtin-rule"
+			}
 		}
 		errS := ""
 		if rerr != nil {
 			errS = rerr.Error()
 		}
 		ctx.Violation(core.Sig{Family: "M2-render", Feature: feat},
-			fmt.Sprintf("%s [%s, %s, catalogue %s (%s), n=%d]: got %q err=%q, spec %q", c10.UnparseBody(o.c.Parts), backend, o.where, cat.name, stName, ex.N, out, errS, want),
-			map[string]interface{}{"case": o.c, "where": o.where, "template": o.tmpl, "file": f, "catalogue": cat.name, "po": entryText(cat, e),
-				"n": ex.N, "expected": want, "observed": out, "error": errS, "backend": backend})
-	case "err":
+			fmt.Sprintf("%s [%s, %s, catalogue %s (%s), n=%d]: got %q err=%q, spec %q", src, backend, o.where, cat.name, stName, n, out, errS, want),
+			map[string]interface{}{"case": o.c, "more": o.more, "where": o.where, "template": o.tmpl, "file": f, "catalogue": cat.name, "po": entryText(cat, e0),
+				"n": n, "expected": want, "observed": out, "error": errS, "backend": backend})
+	case anyErr:
 		if backend == "go" && rerr == nil {
-			ctx.Violation(core.Sig{Family: "M2-render", Feature: "missing-error," + o.c.Feat},
-				fmt.Sprintf("%s [%s, catalogue %s, n=%d]: rendered %q, spec: error", c10.UnparseBody(o.c.Parts), o.where, cat.name, ex.N, out),
-				map[string]interface{}{"case": o.c, "file": f, "catalogue": cat.name, "n": ex.N, "observed": out})
+			ctx.Violation(core.Sig{Family: "M2-render", Feature: "missing-error," + o.feat()},
+				fmt.Sprintf("%s [%s, catalogue %s, n=%d]: rendered %q, spec: error", src, o.where, cat.name, n, out),
+				map[string]interface{}{"case": o.c, "file": f, "catalogue": cat.name, "n": n, "observed": out})
 		}
 	}
 }
@@ -706,13 +859,16 @@ type jsResult struct {
 
 func renderJS(ctx *reporter, work string, reg *template.Registry, cats []*catalogue, occs []*occ, entries map[string]*poEntry, files []core.File) (int, error) {
 	type ref struct {
-		o  *occ
-		ex Exp
+		o *occ
+		n int
 	}
 	var jobs []jsJob
 	refs := map[string][]ref{}
 	for _, cat := range cats {
-		job := jsJob{ID: cat.name, Locale: cat.loc}
+		if cat.alias {
+			continue // soy.$$pluralIndex is the embedder's: nothing of pomsg's rule reaches the JS
+		}
+		job := jsJob{ID: cat.name, Locale: cat.rule}
 		for _, sf := range reg.SoyFiles {
 			var buf bytes.Buffer
 			if err := soyjs.Write(&buf, sf, soyjs.Options{Messages: cat.bundle}); err != nil {
@@ -726,7 +882,7 @@ func renderJS(ctx *reporter, work string, reg *template.Registry, cats []*catalo
 		for _, o := range occs {
 			for _, ex := range o.c.Exp {
 				job.Renders = append(job.Renders, jsRender{Tmpl: o.tmpl, Data: jsData(ex.N)})
-				refs[cat.name] = append(refs[cat.name], ref{o, ex})
+				refs[cat.name] = append(refs[cat.name], ref{o, ex.N})
 			}
 		}
 		jobs = append(jobs, job)
@@ -809,7 +965,7 @@ func renderJS(ctx *reporter, work string, reg *template.Registry, cats []*catalo
 			} else if o.Out != nil {
 				out = *o.Out
 			}
-			judgeRender(ctx, "js", rs[k].o, cat, rs[k].ex, entries[rs[k].o.desc], out, rerr, files[rs[k].o.file])
+			judgeRender(ctx, "js", rs[k].o, cat, rs[k].n, entries, out, rerr, files[rs[k].o.file])
 		}
 	}
 	return total, nil
